@@ -145,5 +145,9 @@ func ZReps(seed int64, nSeeded int) []Val {
 		}
 		out = append(out, Val{fmt.Sprintf("Z=seeded#%d", i), z})
 	}
+	// representatives whose STORED (Montgomery) Z limbs look like a small value: Z = 2^-256 is stored as {1,0,0,0}
+	// (a test for "Z is one" on raw limbs takes it for affine), Z = 2^-192 as {0,1,0,0}
+	rinv := new(big.Int).ModInverse(new(big.Int).Lsh(big.NewInt(1), 256), ref.P)
+	out = append(out, Val{"Z stored as limbs {1,0,0,0} (2^-256)", rinv}, Val{"Z stored as limbs {0,1,0,0} (2^-192)", ref.ModP(new(big.Int).Mul(rinv, new(big.Int).Lsh(big.NewInt(1), 64)))})
 	return out
 }
